@@ -564,6 +564,34 @@ func SortedStringKeys(m interface{}) []string {
 		keys = append(keys, k.String())
 	}
 	sort.Strings(keys)
+	if MapOrder == 1 {
+		for i, j := 0, len(keys)-1; i < j; i, j = i+1, j-1 {
+			keys[i], keys[j] = keys[j], keys[i]
+		}
+	}
+	return keys
+}
+
+// MapOrder selects the iteration order of the rewritten map ranges: 0 ascending keys,
+// 1 descending keys (a harness parameter: Go leaves the order unspecified).
+var MapOrder int
+
+// SortedUint64Keys is SortedStringKeys for maps with uint64 keys (rewriter: maps=u:expr).
+func SortedUint64Keys(m interface{}) []uint64 {
+	v := reflect.ValueOf(m)
+	if v.Kind() != reflect.Map {
+		panic("sched.SortedUint64Keys: not a map")
+	}
+	keys := make([]uint64, 0, v.Len())
+	for _, k := range v.MapKeys() {
+		keys = append(keys, k.Uint())
+	}
+	sort.Slice(keys, func(i, j int) bool {
+		if MapOrder == 1 {
+			return keys[i] > keys[j]
+		}
+		return keys[i] < keys[j]
+	})
 	return keys
 }
 
